@@ -75,6 +75,9 @@ struct TxReasm {
 struct Side {
     node: Node,
     view: crate::tap::NodeView,
+    /// compressed header length (IPHC + NHC octets) seen on the wire per UDP flow (destination, ports, hop limit):
+    /// constant for a flow, so the compressed size of a later datagram of the same flow is known exactly
+    flow_hdr: Vec<(([u8; 16], u16, u16, u8), usize)>,
     ll: Addr154,
     addrs: Vec<[u8; 16]>,
     udp: Vec<(SocketHandle, u16, u8)>,
@@ -288,6 +291,7 @@ fn build_side(tape: &mut Tape, idx: usize, desc: &mut String) -> Side {
     Side {
         node,
         view,
+        flow_hdr: vec![],
         ll,
         addrs,
         udp: udps,
@@ -423,6 +427,7 @@ fn on_tx(c: &mut C, i: usize, raw: &[u8]) -> Result<Option<(usize, usize)>, Viol
                 Ok(x) => x,
                 Err(e) => return if on { Err(v("C20.compress/undecodable-iphc-in-frag1", "iphc", format!("{} ; frame={}", e, hexs(raw)))) } else { Ok(None) },
             };
+            learn_flow(c, i, &hdr);
             let size = h.size as usize;
             if size < 40 + hdr.hdrs.len() + hdr.rest.len() {
                 return if on { Err(v("C20.frag/first-fragment-larger-than-datagram", "fragment", format!("datagram_size {} but FRAG1 alone decompresses to {} octets", size, 40 + hdr.hdrs.len() + hdr.rest.len()))) } else { Ok(None) };
@@ -471,11 +476,23 @@ fn on_tx(c: &mut C, i: usize, raw: &[u8]) -> Result<Option<(usize, usize)>, Viol
         Ok(x) => x,
         Err(e) => return if on { Err(v("C20.compress/undecodable-iphc", "iphc", format!("{} ; frame={}", e, hexs(raw)))) } else { Ok(None) },
     };
+    learn_flow(c, i, &hdr);
     let ip6 = assemble_ipv6(&hdr, None);
     let dg = c.s[i].wire.len();
     c.s[i].wire.push(Dg { ip6: vec![], pkt: Packet { eth: None, arp: None, ip: None, l4: None }, frame_deliveries: vec![0], app_deliveries: 0, fragmented: false, t: c.now });
     complete(c, i, dg, ip6)?;
     Ok(Some((dg, 0)))
+}
+
+fn learn_flow(c: &mut C, i: usize, hdr: &Iphc) {
+    if let Some((at, _)) = hdr.udp_at {
+        if hdr.hdrs.len() >= at + 4 {
+            let key = (hdr.dst, u16::from_be_bytes([hdr.hdrs[at], hdr.hdrs[at + 1]]), u16::from_be_bytes([hdr.hdrs[at + 2], hdr.hdrs[at + 3]]), hdr.hop);
+            if !c.s[i].flow_hdr.iter().any(|(k, _)| *k == key) {
+                c.s[i].flow_hdr.push((key, hdr.consumed));
+            }
+        }
+    }
 }
 
 fn hexs(b: &[u8]) -> String {
@@ -866,10 +883,22 @@ fn app_op(c: &mut C) -> Result<(), Violation> {
                 c.s[to].udp[c.tape.draw(3) as usize].1
             };
             let dst = dst_addr(c, to);
-            let n = size_class(c);
+            let mut n = size_class(c);
+            // once a datagram of this flow has been seen on the wire its compressed header length is known, and with
+            // it exactly which payload still fits the fragmentation buffer after compression: aim at that boundary
+            let known = c.s[i].flow_hdr.iter().find(|(k, _)| *k == (dst, sport, dport, hop)).map(|x| x.1);
+            if let Some(hl) = known {
+                if c.tape.draw(5) == 0 && hl < FRAG_BUF {
+                    n = FRAG_BUF - hl - 1 + c.tape.draw(3) as usize;
+                    c.stats.inc("6lo.udp-send-at-the-compressed-size-limit");
+                }
+            }
             let key = c.tape.draw(1 << 30);
             let payload = payload_bytes(key, n);
-            let oversize = 40 + 8 + n > FRAG_BUF;
+            let oversize = match known {
+                Some(hl) => hl + n > FRAG_BUF,
+                None => 40 + 8 + n > FRAG_BUF,
+            };
             let hopeless = 2 + 4 + n > FRAG_BUF;
             let so = c.s[i].node.sockets.get_mut::<udp::Socket>(h);
             let ep = IpEndpoint::new(v6(&dst), dport);
